@@ -4,19 +4,19 @@ CONSTANTS
   CapBoth = 1
   CapAgg = 1
   CapRes = 1
-  Kinds = {"both", "simple", "count", "limit"}
-  MaxStages = 2
-  Ns = {0, 1, 2, 3, 4, 5, 6, 7, 8, 9, 10, 11, 12}
-  Fs = {1, 0, 2, 3}
-  Ks = {99, 0, 1}
+  Kinds = {"both"}
+  MaxStages = 1
+  Ns = {8}
+  Fs = {1}
+  Ks = {99}
   LimitL = 1
   AggA = 2
   BothDrain = "after"
   MaxWork = 1000
   Reduce = TRUE
-  Survey = TRUE
+  Survey = FALSE
 INIT Init
 NEXT Next
 INVARIANT TypeOK
+INVARIANT Released
 INVARIANT RowsOK
-INVARIANT SurveyInv
